@@ -53,8 +53,8 @@ Theorem C09_custom_function_wins : forall h name args b, assoc_text name (h_funs
   | BRaisePy => (RExc, [])
   end.
 Proof. exact custom_function_wins. Qed.
-Theorem C09_arguments_in_order_once : forall h name args vs evs v, xvals (xval h) args = (ROk vs, evs) ->
-  fst (call_function h name vs) = ROk v -> snd (xval h (XCall name args)) = evs ++ [EvFunction name vs].
+Theorem C09_arguments_in_order_once : forall h sp name args vs evs v, xvals (xval h) args = (ROk vs, evs) ->
+  fst (call_function h name vs) = ROk v -> snd (xval h (XCall sp name args)) = evs ++ [EvFunction name vs].
 Proof. exact call_arguments_in_order. Qed.
 (* once per call site (and one event per reference): the trace of a successful evaluation is the post-order list
    of the references of the expression *)
@@ -70,8 +70,8 @@ Proof. exact documented_resolve. Qed.
 Theorem C09_unknown_function : forall h name args, assoc_text name (h_funs h) = None -> mem_text name (h_registry h) = false ->
   call_function h name args = (RRaise ENAME, []).
 Proof. exact unknown_function. Qed.
-Theorem C09_unknown_call_is_name : forall h name args vs evs, unknown_fn h name -> xvals (xval h) args = (ROk vs, evs) ->
-  xval h (XCall name args) = (RRaise ENAME, evs).
+Theorem C09_unknown_call_is_name : forall h sp name args vs evs, unknown_fn h name -> xvals (xval h) args = (ROk vs, evs) ->
+  xval h (XCall sp name args) = (RRaise ENAME, evs).
 Proof. exact unknown_call_is_name. Qed.
 Theorem C09_unknown_never_value : forall h e, has_unknown h e -> forall v, fst (xval h e) <> ROk v.
 Proof. exact unknown_never_value. Qed.
